@@ -863,7 +863,12 @@ impl endpoint::Session for Session {
                 }
             }
 
-            let chunk_inds = consecutive_chunk_indices(&delivery_ids[..]);
+            // `consecutive_chunk_indices` only yields the positions where a run of consecutive
+            // ids breaks, so the last run (often the only one) must be closed explicitly
+            let mut chunk_inds = consecutive_chunk_indices(&delivery_ids[..]);
+            if !delivery_ids.is_empty() {
+                chunk_inds.push(delivery_ids.len());
+            }
 
             let mut dispositions = Vec::with_capacity(chunk_inds.len());
             let mut prev_ind = 0;
